@@ -1,4 +1,4 @@
-From Coq Require Import List Arith Bool.
+From Coq Require Import List Arith Bool String.
 From Wire Require Import Sets Acyclic Solve Names Front Exec Model Emit ModelThms.
 Import ListNotations.
 
@@ -120,3 +120,14 @@ Theorem C14_disambiguate_fresh : forall (is_kw collides : String.string -> bool)
                          is_kw r = false /\ collides r = false.
 Proof. exact disambiguate_fresh. Qed.
 Print Assumptions C14_disambiguate_fresh.
+
+(* ------------------------------------------------------------------ C01 (partial) *)
+(* injectPass emits exactly one function header per template: the template's name, one parameter per template
+   parameter (in order), and the result list out[, func()][, error] *)
+Theorem C01_one_implementation : forall E inj cs g,
+  exists params results body g',
+    inject_pass E inj cs g = (String.append "SIG "%string (String.append (i_name inj) (String.append "("%string (String.append (join ", "%string params) (String.append ") -> "%string (join ", "%string results))))) :: body, g') /\
+    List.length params = List.length (i_params inj) /\
+    List.length results = 1 + (if i_cleanup inj then 1 else 0) + (if i_err inj then 1 else 0).
+Proof. exact inject_pass_header. Qed.
+Print Assumptions C01_one_implementation.
